@@ -26,6 +26,8 @@ func c11(c *eng.Ctx, r *eng.Report) {
 		"R11.9 a write attempt in read-only context surfaces as ErrWriteProtection: Run refuses rows flagged `writes` under the interpreter-wide in.readOnly flag (not the frame argument) before operation.execute, and the flag is sticky across nested frames (shared with C12). " +
 		"R11.10 callGas/authCallGas return min(request, a - a/64) with a = available - base, and the four call-family gas functions call callGas(true, contract.Gas, …). " +
 		"R11.11 a precompile runs only after the caller paid for it, and the price compared with the supplied gas is RequiredGas(input) itself — no unchecked arithmetic between pricing and the affordability test (the precompiles size their allocations from the input on the strength of that price: MODEXP allocates what the header announces); " +
+		"R11.20 the interpreter looks at the stack only after it has validated its depth: every Stack accessor call in (*EVMInterpreter).Run (Back, peek, pop) is dominated by the false edge of `sLen < operation.minStack` — the read-only check reads stack.Back(2) for CALL, and ahead of the validation a CALL with fewer than three items in a static frame panics instead of failing with ErrStackUnderflow; " +
+		"R11.21 a call-family gas function that succeeds has set the gas it forwards: every nil-error return of a dynamic-gas function that stores evm.callGasTemp is preceded on every path by that store — the field is EVM-wide, and a fast path that skips the store makes opCall forward what the previous call-family instruction left there: gas the caller never paid for, returned to it afterwards, so gas grows inside a frame; " +
 		"R11.19 a zero-length memory operand touches nothing: in every Memory accessor that takes a size (Set, GetCopy, GetPtr, Copy) each slice expression over the backing store is dominated by the test that the size is non-zero — a zero-length range has memory size 0 whatever its offset, so nothing has bounded the offset (LOG0 or CREATE with offset 2^63 and size 0 reach GetCopy with a negative offset); " +
 		"R11.18 the fixed-width word setters get the bytes they read: every (*uint256.Int).SetBytesN(b) call in the vm package (SetBytes32 reads b[31] unconditionally) is handed a slice whose length is statically at least N — a slice of an array of N or more bytes, or a make of constant length; finding F28: BLOBHASH called SetBytes32 with an empty slice and PUSH1 0, BLOBHASH panicked through EVM.Call; " +
 		"R11.17 the price table a fork adjusts belongs to one interpreter: every value stored in EVMInterpreter.jumpTable is the result of a newInstructionSet() call made for that interpreter, and newInstructionSet takes no operation from a package-level variable — doProposal014/022/026 write through the table's *operation pointers (constantGas *= 30), so a table or entry shared between interpreters is re-priced once per EVM until the prices wrap to zero and gas no longer bounds a loop; " +
@@ -53,6 +55,8 @@ func c11(c *eng.Ctx, r *eng.Report) {
 	c11OwnJumpTable(c, r)
 	c11FixedWidthSetBytes(c, r)
 	c11ZeroSizeTouchesNothing(c, r)
+	c11StackCheckedFirst(c, r)
+	c11CallGasAlwaysSet(c, r)
 	c11ModulusNonZero(c, r)
 	c11UnsignedSign(c, r)
 	c11CodeHashOfCode(c, r)
@@ -1709,5 +1713,71 @@ func c11ZeroSizeTouchesNothing(c *eng.Ctx, r *eng.Report) {
 			continue
 		}
 		r.Check(bad == "", rule, "zero-size:"+eng.FuncName(fn), c.Pos(fn.Pos()), fmt.Sprintf("%d slice expression(s) over the store, each under size != 0", n), eng.FuncName(fn)+" slices the memory store at "+bad+" without having established that the size is non-zero: for a zero-length operand nothing bounded the offset (its memory size is 0), the call sites pass int64(offset.Uint64()), and an offset of 2^63 or more arrives negative, passes the length test and makes the slice expression panic — LOG0/CREATE/CREATE2 with size 0 and offset 2^63 crash the host")
+	}
+}
+
+// c11StackCheckedFirst: see R11.20.
+func c11StackCheckedFirst(c *eng.Ctx, r *eng.Report) {
+	const rule = "R11.20"
+	r.Min(rule, 1)
+	run := c.Func("vm", "(*EVMInterpreter).Run")
+	if !r.Anchor(run != nil, rule, "vm.(*EVMInterpreter).Run") {
+		return
+	}
+	n, bad := 0, ""
+	for _, s := range eng.Sites(run) {
+		nm := s.Name()
+		if !(strings.HasSuffix(nm, "vm.Stack).Back") || strings.HasSuffix(nm, "vm.Stack).peek") || strings.HasSuffix(nm, "vm.Stack).pop")) {
+			continue
+		}
+		n++
+		ok := false
+		for _, cd := range eng.CondsAt(s.Instr) {
+			m, isM := cd.Cmp()
+			if !isM {
+				continue
+			}
+			if strings.HasSuffix(eng.Desc(m.Y), ".minStack") && m.Op == token.GEQ {
+				ok = true
+			}
+			if strings.HasSuffix(eng.Desc(m.X), ".minStack") && m.Op == token.LEQ {
+				ok = true
+			}
+		}
+		if !ok {
+			bad = nm + " at " + c.Pos(s.Pos())
+		}
+	}
+	r.Check(bad == "" && n >= 1, rule, "run:stack-checked-first", c.Pos(run.Pos()), fmt.Sprintf("%d stack access(es) in Run, each after the depth validation", n), "Run reads the operand stack ("+bad+") before the depth validation has passed for the current operation: in a read-only frame a CALL reached with fewer than three items makes stack.Back(2) index out of range — the panic escapes EVM.Call instead of the frame failing with ErrStackUnderflow")
+}
+
+// c11CallGasAlwaysSet: see R11.21.
+func c11CallGasAlwaysSet(c *eng.Ctx, r *eng.Report) {
+	const rule = "R11.21"
+	r.Min(rule, 4)
+	for _, fn := range c.PkgFuncs("vm") {
+		var stores []ssa.Instruction
+		for _, b := range fn.Blocks {
+			for _, in := range b.Instrs {
+				if st, ok := in.(*ssa.Store); ok {
+					if _, f := eng.FieldOf(st.Addr); f == "callGasTemp" {
+						stores = append(stores, in)
+					}
+				}
+			}
+		}
+		if len(stores) == 0 || fn.Signature.Results().Len() != 2 {
+			continue
+		}
+		bad := ""
+		for _, re := range eng.Returns(fn) {
+			if !eng.IsNilConst(re.Incoming(1)) {
+				continue
+			}
+			if !eng.MustPassBefore(fn, re.Ret, stores) {
+				bad = c.Pos(re.Ret.Pos())
+			}
+		}
+		r.Check(bad == "", rule, "call-gas-set:"+eng.FuncName(fn), c.Pos(fn.Pos()), "every successful return follows the callGasTemp store", eng.FuncName(fn)+" can return success (at "+bad+") without having stored evm.callGasTemp: the opcode handler forwards whatever the previous call-family instruction of the transaction left in that EVM-wide field — the callee runs on gas the caller was never charged, the unspent part is added to the caller on return, GAS reads higher after the CALL than before it, and a loop of such calls never runs out of gas")
 	}
 }
